@@ -55,9 +55,9 @@ Reorder(n) ==
 
 (***************************************************************************)
 (* What TOML refuses (C08): a root that is not a table, a null anywhere,   *)
-(* an integer outside the signed 64-bit range.  (Keys are strings in the   *)
-(* common data model; other keys, binary and 32-bit floats are outside the *)
-(* statement.)                                                             *)
+(* an integer outside the signed 64-bit range - and whatever else could    *)
+(* not "read back as the input value": binary data, a key that is not a    *)
+(* string, a key repeated within one table.                                *)
 (***************************************************************************)
 \* |value| as digits d[2..]; out of range iff more than 19 digits, or 19 digits above the bound
 I64Max == <<9, 2, 2, 3, 3, 7, 2, 0, 3, 6, 8, 5, 4, 7, 7, 5, 8, 0, 7>>
@@ -76,6 +76,10 @@ RECURSIVE HasBad(_)
 HasBad(n) ==
   \/ n.t = "null"
   \/ (n.t = "int" /\ OutOfI64(n.d))
+  \/ n.t = "bin"                                         \* TOML has no binary type: nothing could read back as it
+  \/ (IsMap(n) /\ \E i \in 1..Len(n.xs) :
+        \/ Key(n.xs[i]).t # "str"                         \* TOML keys are strings
+        \/ \E j \in 1..Len(n.xs) : j # i /\ Key(n.xs[j]) = Key(n.xs[i]))   \* a table holds a key once
   \/ \E i \in 1..Len(n.xs) : HasBad(n.xs[i])
 
 TomlRefuses(n) == ~IsMap(n) \/ HasBad(n)
@@ -118,6 +122,19 @@ AsCoded(n, ctx) ==       \* ctx: "root" | "section" | "inline"
   THEN LET c == IF ctx # "inline" /\ IsTableEntry(n) THEN "section" ELSE "inline"
        IN [n EXCEPT !.xs = [i \in 1..Len(n.xs) |-> AsCoded(n.xs[i], c)]]
   ELSE n
+
+(***************************************************************************)
+(* Equality up to the order of table entries (C08 asks that the document   *)
+(* "reads back as the input value"; the order of a table's entries is not  *)
+(* part of a TOML value - C01 is the property that constrains it).         *)
+(***************************************************************************)
+RECURSIVE EqUnordered(_, _)
+EqUnordered(a, b) ==
+  /\ a.t = b.t /\ a.s = b.s /\ a.d = b.d /\ Len(a.xs) = Len(b.xs)
+  /\ IF IsMap(a)
+     THEN \A i \in 1..Len(a.xs) : \E j \in 1..Len(b.xs) :
+            Key(a.xs[i]) = Key(b.xs[j]) /\ EqUnordered(Val(a.xs[i]), Val(b.xs[j]))
+     ELSE \A i \in 1..Len(a.xs) : EqUnordered(a.xs[i], b.xs[i])
 
 -----------------------------------------------------------------------------
 (* Laws of TomlReorder, model-checked over all small shapes (MC_XtData).   *)
